@@ -141,7 +141,7 @@ def xfModel (op : XfOp) (src : TObs) : Except String (Option Meta × Option Meta
   | "swizzle" => pure (some (mSwizzle op.order m), some (sSwizzle op.order m))
   | "swap" => pure (mSwap op.k m, sSwap op.k m)
   | "flatten" | "merge" => pure (mFlatten op.style op.k op.levels m, sFlatten op.style op.k op.levels m)
-  | "unflatten" => pure (mUnflatten op.k op.levels src.rep m, sUnflatten op.k op.levels m)
+  | "unflatten" => pure (mUnflatten op.k op.levels m, sUnflatten op.k op.levels m)
   | "updc" | "updp" => pure (some (mUpdate m), some m)
   | s => throw s!"C14: unknown transform {s}"
 
